@@ -41,6 +41,7 @@ MIN_REACH = {
     "farmer_crops_built_by_the_generic_constructor_with_shuffle": {"quick": 10, "thorough": 100},
     "farmer_crops_grown_as_mpi_rank_0": {"quick": 10, "thorough": 150},
     "sow_time_constants_given_as_pairs_or_a_one_shot_iterable": {"quick": 8, "thorough": 120},
+    "farmer_crops_whose_function_is_a_decorated_one": {"quick": 10, "thorough": 150},
     "farmer_crops_reaped_without_sync": {"quick": 3, "thorough": 40},
     "farmer_crops_with_an_earlier_failed_result_write": {"quick": 10, "thorough": 100},
 }
@@ -138,6 +139,22 @@ def run_case(ctx, case):
     probe.write_ctl(ctl1)
     fn1 = cropkit.build_probe(kind, log1, ctl=ctl1, name="fprobe", by_value=case["fresh"])
     fn2 = probe.Probe(kind, logfile=log2, name="fprobe")
+    decor_log = None
+    if case["idx"] % 5 == 1 and not case["fresh"]:
+        # the swept function is a functools.wraps-DECORATED one; the decorator leaves a line in a file of its own each time
+        # it runs (the function underneath computes the same values silently): what is grown is the callable that was given
+        import functools
+        decor_log = os.path.join(tmp, "decorator.log")
+
+        def _decorate(inner, path):
+            @functools.wraps(inner)
+            def fprobe(**kw):
+                with open(path, "a") as f_:
+                    f_.write("x\n")
+                return inner(**kw)
+            return fprobe
+        fn1, fn2 = _decorate(fn1, decor_log), _decorate(fn2, os.path.join(tmp, "decorator2.log"))
+        ctx.count("farmer_crops_whose_function_is_a_decorated_one")
     ver = 2 if farmer == "harvester" else None
     via_setter = case["idx"] % 6 == 3 and not case.get("writer_between") and farmer != "sampler"    # (a Sampler is also sampled directly here)
     if via_setter:
@@ -468,6 +485,8 @@ def run_case(ctx, case):
                 bad.append("sampler table after reap (%d rows) differs from the table after direct sampling (%d rows)" % (len(a), len(b)))
         except Exception as e:
             bad.append("comparing sampler tables raised %r" % (e,))
+    if decor_log is not None and not via_setter and not os.path.exists(decor_log):
+        bad.insert(0, "the decorated function given to the farmer was never called by the crop (its decorator left no trace): something else was grown")
     for msg in bad[:2]:
         ctx.violation(case, msg, dict(sig, oracle=" ".join(msg.split(" ")[:3])))
     ctx.rmtree(tmp)
